@@ -624,6 +624,23 @@ pub fn build_pool(shipped_text: String, shipped_table: Vec<Entry>, n_rendered: u
             }
             long = "+longline";
         }
+        // Every file IERS publishes carries the `#$` (last update), `#@` (expiry) and `#h` (hash)
+        // special comments; a file without them is judged leniently (a loader may insist on them).
+        // Three images in four carry all three, by rank.
+        if i % 4 != 1 {
+            style.dollar_line = true;
+            style.at_line = true;
+            if !style.hash_line_first {
+                style.hash_line = true;
+            }
+        }
+        if i % 16 == 13 {
+            style.hash_line = false; // the unterminated-last-data-line class ends in a data line
+            style.hash_line_first = true;
+        }
+        if !(style.dollar_line && (style.at_line || style.stale_expiry) && (style.hash_line || style.hash_line_first)) {
+            strict = false;
+        }
         let text = render(&table, &style, &mut r);
         let mut text = text;
         let mut odd = "";
